@@ -114,6 +114,9 @@ func (l level) mine(r *core.Run, h uint64) bool {
 
 func only(sec string) bool {
 	o := os.Getenv("VERIF_ONLY")
+	if o == "slurplast" {
+		return sec == "sem" // runSemantic then skips every other mode
+	}
 	return o == "" || o == sec
 }
 
@@ -209,6 +212,7 @@ func plan(r *core.Run, stp **semState) []phase {
 		phases = []phase{
 			syn(l0, l1p, l2k2),
 			fqp(l0, l1s, l2k1),
+			sem(semLevel{level{name: "slurp-stages"}, []string{"slurplast"}}, semLevel{s0, []string{"slurplast"}}, semLevel{s1k1, []string{"slurplast"}}, semLevel{s1k4, []string{"slurplast"}}),
 			sem(semLevel{level{name: "capture-set"}, all}, semLevel{s0, all}, semLevel{s1k1, all}, semLevel{s1k4, []string{"null", "normal"}}, semLevel{s2k1, null}),
 			syn(l3),
 		}
@@ -217,6 +221,7 @@ func plan(r *core.Run, stp **semState) []phase {
 			syn(l0, l1p, l2k2),
 			fqp(l0, l1s, l2k1),
 			sem(semLevel{level{name: "capture-set"}, all}, semLevel{s0, all}, semLevel{s1k1, all}, semLevel{s1k4, all}, semLevel{s2k1, null}),
+			sem(semLevel{level{name: "slurp-stages"}, []string{"slurplast"}}, semLevel{s0, []string{"slurplast"}}, semLevel{s1k1, []string{"slurplast"}}, semLevel{s1k4, []string{"slurplast"}}, semLevel{s2k1, []string{"slurplast"}}),
 			syn(l3j),
 			fqp(l1p, l2k2),
 			sem(semLevel{s1s, null}, semLevel{s2k1, []string{"normal", "slurp"}}),
